@@ -168,6 +168,33 @@ class _StopShrinking(BaseException):
     pass
 
 
+class CaseTimeout(BaseException):
+    """One generated case did not return in time. Not a violation (termination is claimed by C08 / C11 only, which
+    have their own bounds): the run ends as a harness error instead of hanging for ever."""
+
+
+class _case_watchdog(object):
+    def __enter__(self):
+        import signal
+        self.limit = int(os.environ.get('VERIF_CASE_TIMEOUT') or 600)
+        try:
+            self.old = signal.signal(signal.SIGALRM, self._fire)
+            self.prev = signal.alarm(self.limit)
+        except ValueError:      # not in the main thread
+            self.old = None
+        return self
+
+    def _fire(self, signum, frame):
+        raise CaseTimeout('a generated case did not return within %d s' % self.limit)
+
+    def __exit__(self, *a):
+        import signal
+        if self.old is not None:
+            signal.alarm(0)
+            signal.signal(signal.SIGALRM, self.old)
+        return False
+
+
 def run_hypothesis(prop, strategy, max_examples, seed, rec, shrink=True, stateful=False):
     """Run one Hypothesis search in this process.
 
@@ -201,7 +228,8 @@ def run_hypothesis(prop, strategy, max_examples, seed, rec, shrink=True, statefu
             # (answering the remaining candidates from a cache still costs their generation - minutes for histories)
             raise _StopShrinking()
         try:
-            prop(case, rec)
+            with _case_watchdog():
+                prop(case, rec)
         except Violation as v:
             if v.case is None:
                 v.case = case
